@@ -124,6 +124,31 @@ def run_dictwrap(case, rec):
 
     if not mirror("first"):
         return
+    # two trees built from ONE structure with the library's own mapper: editing the data of one of them shows neither
+    # in the structure nor in the other tree
+    import copy as _copy
+    import json as _json
+
+    structure = tree.to_dict_list(mapper=DictWrapper.serialize_mapper)
+    keep = _json.dumps(structure, sort_keys=True)
+    try:
+        ta = Tree.from_dict(structure, mapper=DictWrapper.deserialize_mapper)
+        tb = Tree.from_dict(structure, mapper=DictWrapper.deserialize_mapper)
+    except Exception as e:  # noqa: BLE001
+        rec.fail("dictwrap:from_dict:raises", repr(e)[:200])
+        return
+    rec.evals += 1
+    before_b = [dict(n.data._dict) for n in tb]
+    for n in ta:
+        n.data._dict["edited"] = True
+        n.data._dict["name"] = "edited"
+    if _json.dumps(structure, sort_keys=True) != keep:
+        rec.fail("dictwrap:from_dict:editing-a-built-tree-changes-the-structure", {"before": _json.loads(keep), "after": structure})
+        return
+    if [dict(n.data._dict) for n in tb] != before_b:
+        rec.fail("dictwrap:from_dict:two-trees-from-one-structure-share-data", None)
+        return
+    del _copy
     inner = [n for n in nodes if n.children]
     rec.nt(bool(inner))
     for i in case.get("strip", []):
@@ -297,6 +322,58 @@ def run(case, rec):
     w2 = walk(t2)
     if type(t2) is not Tree:
         rec.fail("from_dict:class", repr(type(t2)))
+    if flav != "obj" and w.pre:
+        # (a) the node-level twin: the structure is grafted below a childless node of a tree that already has nodes
+        t4 = Tree("host-tree")
+        host = t4.add("host-node")
+        t4.add("another-node").add("x")
+        try:
+            host.from_dict(obj)
+        except Exception as e:  # noqa: BLE001
+            rec.fail("node.from_dict:raises", repr(e)[:200])
+            return
+        w4 = walk(t4)
+
+        def v_(wk, n):
+            return [n.data, n.data_id, [v_(wk, c) for c in wk.kids[id(n)]]]
+
+        if [v_(w4, c) for c in w4.kids[id(host)]] != [v_(w2, c) for c in w2.kids[id(None)]]:
+            rec.fail("node.from_dict:differs-from-Tree.from_dict", None)
+            return
+        # (b) a hand-made structure may use ONE dict object at several places (two leaf clones): same result
+        leaves = []
+
+        def collect_leaves(items):
+            for it in items:
+                if it.get("children"):
+                    collect_leaves(it["children"])
+                else:
+                    leaves.append((items, it))
+
+        import copy as _copy
+
+        obj_b = _copy.deepcopy(obj)
+        collect_leaves(obj_b)
+        aliased = 0
+        for i, (lst_i, it_i) in enumerate(leaves):
+            for lst_j, it_j in leaves[i + 1:]:
+                if it_i == it_j and it_i is not it_j and lst_i is not lst_j:
+                    lst_j[[k for k, x in enumerate(lst_j) if x is it_j][0]] = it_i
+                    aliased += 1
+                    break
+            if aliased:
+                break
+        if aliased:
+            rec.cls("structure-with-one-dict-object-at-two-places")
+            try:
+                t5 = Tree.from_dict(obj_b)
+            except Exception as e:  # noqa: BLE001
+                rec.fail("from_dict:aliased-sub-dict:raises", repr(e)[:200])
+                return
+            w5 = walk(t5)
+            if [v_(w5, c) for c in w5.kids[id(None)]] != [v_(w2, c) for c in w2.kids[id(None)]]:
+                rec.fail("from_dict:aliased-sub-dict:differs", None)
+                return
 
     from vlib.serial import Tag
 
